@@ -32,6 +32,8 @@ type Env struct {
 	vars map[string]TVal
 	res  []TVal
 	post bool // parameter names denote entry values (requires/ensures); otherwise the current local cells
+	hst  *State // state whose heap/ghosts are read (cur, or the entry state inside old())
+	oldMode bool
 	pkg  *types.Package
 	// spec-function compilation: heap reads go to formal heap parameters
 	heapParams map[string]bool
@@ -42,7 +44,7 @@ type Env struct {
 }
 
 func (g *FnGen) newEnv(cur, old *State) *Env {
-	return &Env{c: g.c, g: g, cur: cur, old: old, vars: map[string]TVal{}, pkg: g.fn.Pkg.Pkg}
+	return &Env{c: g.c, g: g, cur: cur, hst: cur, old: old, vars: map[string]TVal{}, pkg: g.fn.Pkg.Pkg}
 }
 
 func (e *Env) with(name string, v TVal) *Env {
@@ -61,7 +63,7 @@ func (e *Env) heap(sort string) string {
 		e.c.reg.heapSorts[sort] = true
 		return "hp_" + heapName(sort)
 	}
-	return e.g.heap(e.cur, sort)
+	return e.g.heap(e.hst, sort)
 }
 
 func (e *Env) inOld() *Env {
@@ -69,8 +71,8 @@ func (e *Env) inOld() *Env {
 		return e
 	}
 	n := *e
-	n.cur = e.old
-	n.post = true
+	n.hst = e.old
+	n.oldMode = true
 	return &n
 }
 
@@ -104,7 +106,7 @@ func (e *Env) force(v TVal) TVal {
 	if v.src.specMode {
 		return TVal{term: v.src.specLoad(v.addr, v.ty.gt), ty: v.ty}
 	}
-	return TVal{term: v.src.g.load(v.src.cur, v.addr, v.ty.gt), ty: v.ty}
+	return TVal{term: v.src.g.load(v.src.hst, v.addr, v.ty.gt), ty: v.ty}
 }
 
 func (e *Env) evalLazy(x Expr) TVal {
@@ -200,7 +202,7 @@ func (e *Env) loadAt(ref string, t types.Type) TVal {
 	if e.specMode {
 		return TVal{term: e.specLoad(ref, t), ty: e.goTy(t)}
 	}
-	return TVal{term: e.g.load(e.cur, ref, t), ty: e.goTy(t)}
+	return TVal{term: e.g.load(e.hst, ref, t), ty: e.goTy(t)}
 }
 
 func (e *Env) specLoad(r string, t types.Type) string {
@@ -233,7 +235,8 @@ func (e *Env) ident(name string) TVal {
 	}
 	if e.g != nil {
 		g := e.g
-		if !e.post {
+		_, isParam := g.params[name]
+		if !(isParam && (e.post || e.oldMode)) {
 			if name == "iter" {
 				if a, ok := e.cur.names["rangeindex"]; ok {
 					return TVal{term: app("+", e.cur.locals[a], "1"), ty: intTy()}
@@ -252,7 +255,7 @@ func (e *Env) ident(name string) TVal {
 		}
 		if p, ok := g.params[name]; ok {
 			if fv := g.freeVar(name); fv != nil {
-				// captured variable: its current content
+				// captured variable: its content
 				return e.loadAt(p.term, fv.(*types.Pointer).Elem())
 			}
 			return p
@@ -261,7 +264,7 @@ func (e *Env) ident(name string) TVal {
 	}
 	if _, ok := e.c.ghosts[name]; ok && e.g != nil {
 		gd := e.c.ghosts[name]
-		return TVal{term: e.g.ghost(e.cur, name), ty: e.c.specSort(gd.Sort, e.pkg)}
+		return TVal{term: e.g.ghost(e.hst, name), ty: e.c.specSort(gd.Sort, e.pkg)}
 	}
 	if sf, ok := e.c.specs[name]; ok && len(sf.Params) == 0 {
 		return e.callSpec(sf, nil)
